@@ -237,15 +237,20 @@ EHDR_FIELDS = [("e_ident_class", 4, 1), ("e_ident_data", 5, 1), ("e_ident_versio
                ("e_type", 16, 2), ("e_machine", 18, 2), ("e_version", 20, 4), ("e_entry", 24, 8), ("e_phoff", 32, 8),
                ("e_shoff", 40, 8), ("e_flags", 48, 4), ("e_ehsize", 52, 2), ("e_phentsize", 54, 2), ("e_phnum", 56, 2),
                ("e_shentsize", 58, 2), ("e_shnum", 60, 2), ("e_shstrndx", 62, 2)]
-SHDR_FIELDS = [("sh_name", 0, 4), ("sh_type", 4, 4), ("sh_flags", 8, 8), ("sh_addr", 16, 8), ("sh_offset", 24, 8),
-               ("sh_size", 32, 8), ("sh_link", 40, 4), ("sh_info", 44, 4), ("sh_addralign", 48, 8), ("sh_entsize", 56, 8)]
+_SH = {"sh_name": (0, 4), "sh_type": (4, 4), "sh_flags": (8, 8), "sh_addr": (16, 8), "sh_offset": (24, 8), "sh_size": (32, 8),
+       "sh_link": (40, 4), "sh_info": (44, 4), "sh_addralign": (48, 8), "sh_entsize": (56, 8)}
+# weighted: offsets/sizes/indices are where bounds checks live
+SHDR_FIELDS = [(n, *_SH[n]) for n in ("sh_offset", "sh_offset", "sh_offset", "sh_size", "sh_size", "sh_size", "sh_link", "sh_link",
+                                      "sh_info", "sh_info", "sh_type", "sh_type", "sh_entsize", "sh_entsize", "sh_flags",
+                                      "sh_flags", "sh_name", "sh_addr", "sh_addralign", "sh_addralign")]
 SYM_FIELDS = [("st_name", 0, 4), ("st_info", 4, 1), ("st_other", 5, 1), ("st_shndx", 6, 2), ("st_value", 8, 8), ("st_size", 16, 8)]
 RELA_FIELDS = [("r_offset", 0, 8), ("r_type", 8, 4), ("r_sym", 12, 4), ("r_addend", 16, 8)]
 DYN_FIELDS = [("d_tag", 0, 8), ("d_val", 8, 8)]
 PHDR_FIELDS = [("p_type", 0, 4), ("p_flags", 4, 4), ("p_offset", 8, 8), ("p_vaddr", 16, 8), ("p_filesz", 32, 8),
                ("p_memsz", 40, 8), ("p_align", 48, 8)]
-STRUCTS = ["ehdr", "shdr", "shdr", "sym", "sym", "rela", "rela", "group", "ehframe", "gnuprop", "versym", "verdef",
-           "verneed", "dynamic", "dynsym", "hash", "strtab", "phdr", "secbyte", "trunc"]
+STRUCTS = ["ehdr", "ehdr", "shdr", "shdr", "shdr", "shdr", "shdr", "shdr", "sym", "sym", "sym", "sym", "rela", "rela", "rela",
+           "rela", "group", "ehframe", "ehframe", "gnuprop", "versym", "verdef", "verneed", "dynamic", "dynsym", "hash",
+           "strtab", "phdr", "secbyte", "trunc"]
 ENUM_VALUES = {
     "sh_type": [0, 1, 2, 3, 4, 5, 6, 7, 8, 9, 11, 14, 15, 16, 17, 18, 19, 0x6ffffff6, 0x6ffffffd, 0x6ffffffe, 0x6fffffff,
                 0x70000001, 0x70000003, 0x7fffffff, 0xffffffff],
@@ -555,7 +560,8 @@ def mutate_text(seed, muts):
 mut_strategy = st.fixed_dictionaries({"struct": st.sampled_from(STRUCTS), "i": st.integers(0, 4095), "f": st.integers(0, 31),
                                       "val": st.integers(0, 255), "raw": st.integers(0, M64)})   # noqa
 
-FAMILIES = ["elf-obj", "elf-obj", "elf-obj", "elf-so", "archive", "archive", "script", "version", "dynlist", "response", "args"]
+FAMILIES = ["elf-obj", "elf-obj", "elf-obj", "elf-obj", "elf-obj", "elf-so", "elf-so", "archive", "archive", "script", "version",
+            "dynlist", "response", "args"]
 
 ARG_VALUES = ["", "x", "0", "-1", "0x10", "99999999999999999999", "main.o", "nonexistent", "=", "a=b", "a=0x10", ".text=0x1000",
               "gnu", "sysv", "both", "none", "md5", "sha1", "uuid", "0x12", "0xzz", "all", "safe", "ALL", "libdep.so", "/", ".",
@@ -769,7 +775,7 @@ class C22(Check):
     assumptions = ["a non-zero exit with a `wild: error` line and no panic text is the accepted failure mode",
                    "a timeout is a hang only if the whole process group shows no CPU progress and only sleeping threads over 5 s",
                    "libFuzzer crash artifacts count only if the real binary reproduces them"]
-    quick_cases = 1400
+    quick_cases = 1200
     thorough_cases = 40000
     case_timeout = 60
     fuzz_runs_quick = 4000
